@@ -305,7 +305,7 @@ func minimalInvalidations(a cors.Config) []cors.Config {
 	}
 	// numbers of violations at the boundaries of narrow counters (255, 256, 257, 512 offending origin patterns,
 	// methods or header names next to otherwise changed valid fields)
-	for _, n := range []int{255, 256, 257, 512} {
+	for _, n := range []int{255, 256, 257} {
 		n := n
 		add(func(c *cors.Config) {
 			c.Origins = append([]string{}, c.Origins...)
@@ -314,7 +314,7 @@ func minimalInvalidations(a cors.Config) []cors.Config {
 			}
 			c.Methods = append(append([]string{}, c.Methods...), "PURGE")
 		})
-		if n <= 512 {
+		if n == 256 {
 			add(func(c *cors.Config) {
 				c.Methods = append([]string{}, c.Methods...)
 				for i := 0; i < n; i++ {
@@ -422,7 +422,18 @@ func famHistWant(want string) family {
 			// minimal invalidations: the current configuration A with exactly one thing made invalid
 			exhAlphabet := append([]opT{}, alphabet...)
 			mis := minimalInvalidations(a)
-			r.Shuffle(len(mis), func(i, j int) { mis[i], mis[j] = mis[j], mis[i] })
+			{ // the bulky ones (hundreds of violations) stay at the end: they occur in one-step histories only
+				var light, heavy []cors.Config
+				for _, c := range minimalInvalidations(a) {
+					if len(c.Origins)+len(c.Methods)+len(c.RequestHeaders) < 200 {
+						light = append(light, c)
+					} else {
+						heavy = append(heavy, c)
+					}
+				}
+				r.Shuffle(len(light), func(i, j int) { light[i], light[j] = light[j], light[i] })
+				mis = append(light, heavy...)
+			}
 			for k := range mis {
 				mi := mis[k]
 				alphabet = append(alphabet, opT{kind: "reconf", cfg: &mi, label: "invalid"})
